@@ -4,6 +4,8 @@ from __future__ import annotations
 
 import ast
 
+from sa.astutil import after_block, precedes  # statement order (never line numbers)
+
 from sa.astutil import (
     stores,
     is_truthy_test,
@@ -343,7 +345,7 @@ def r3_group_loop(ctx):
             ctx.fail(c + "#exit", f"{type(n).__name__.lower()} inside the group loop ends the pipeline early", where=f, node=n)
     # nothing may leave the function before the loop on a normal path
     for r in returns_of(f):
-        if r.lineno < loop.lineno:
+        if precedes(f, r, loop):
             ctx.fail(c + "#early-return", "return before the group loop", where=f, node=r)
     det = arg_or_kw(call, 0, "detector")
     dbg = arg_or_kw(call, 1, "debug")
